@@ -229,7 +229,10 @@ pub fn run(ctx: &Ctx) -> Report {
       rep.evaluations += 1;
       rep.count(&format!("path:{}", name.split('(').next().unwrap()));
       let shown = format!("{} # path={}", case, name);
-      let site = if form == "M2" { "build" } else { "r2d" };
+      // D10d (known findings) needs a flush that interleaves with what was flushed before: observations
+      // pushed in chronological order (non-decreasing start AND end) never do that
+      let chrono = obs.windows(2).all(|p| p[0].ta <= p[1].ta && p[0].tb <= p[1].tb);
+      let site = if form == "M2" { if chrono { "build|chrono" } else { "build|any" } } else { "r2d" };
       match r {
         Err(p) => rep.violation_c(&format!("{} fails: {}", name, p), &shown, &p, "", "C09 (construction is total)", &panic_class(&p)),
         Ok(out) => match judge_obs(&mut orc, form, &out, &obs) {
